@@ -605,6 +605,21 @@ def ghost_zero_key():
     _symbolic_only()
 
 
+def kat(lst, i):
+    """i-th entry of a list of key tuples"""
+    _symbolic_only()
+
+
+def mhas(m, k):
+    """key k is in the map"""
+    _symbolic_only()
+
+
+def mget(m, k):
+    """value stored under key k"""
+    _symbolic_only()
+
+
 def key_part(key, j):
     """j-th component of a dict key tuple"""
     _symbolic_only()
